@@ -336,6 +336,30 @@ class Check:
         log("[%s]   %d states, %.1fs" % (self.prop, res.distinct, res.wall))
         return res
 
+    # -- TLAPS: an unbounded proof about the specification itself (no binding; complements TLC's bounded instances)
+    def proof_stage(self, name, module, needs, timeout=1800):
+        tag = "%s_%s_%s" % (self.prop, self.tier, name)
+        d = os.path.join(WORK, tag)
+        shutil.rmtree(d, ignore_errors=True)
+        os.makedirs(d)
+        shutil.copy(os.path.join(VERIF, "proofs", module + ".tla"), d)
+        for m in needs:
+            shutil.copy(os.path.join(SPEC, m + ".tla"), d)
+        log("[%s] stage %s: tlapm %s" % (self.prop, name, module))
+        t0 = time.time()
+        r = subprocess.run(["timeout", str(timeout), "tlapm", "--threads", "6", module + ".tla"], cwd=d,
+                           stdout=subprocess.PIPE, stderr=subprocess.STDOUT, text=True)
+        wall = time.time() - t0
+        with open(os.path.join(WORK, tag + ".tlapm.log"), "w") as f:
+            f.write(r.stdout)
+        m = re.search(r"All (\d+) obligations proved", r.stdout)
+        shutil.rmtree(d, ignore_errors=True)
+        if not m:
+            raise ToolError("tlapm did not prove %s: %s" % (module, r.stdout[-1500:]))
+        self.stage_info.append({"stage": name, "tlapm_obligations_proved": int(m.group(1)), "wall_s": round(wall, 1),
+                                "exhaustive": True, "unbounded": True})
+        log("[%s]   %s obligations proved, %.1fs" % (self.prop, m.group(1), wall))
+
     # -- binding B
     def _run_split(self, tag, module, cfg, trace_path, split, boundary, timeout, heap):
         """Validates a long trace as `split` independent chunks in parallel TLC runs.  Chunks start at
